@@ -211,6 +211,8 @@ def run(ctx):
             hist[d["err"]] = hist.get(d["err"], 0) + 1
             for clause, detail in G.gov_inv(d, donated):
                 fails.append(("GovInv clause %s fails" % clause, {"scenario": sc, "step": k - 1, "detail": detail}))
+            for what, det in G.selection_predicates(d):
+                fails.append((what, {"scenario": sc, "step": k - 1, "detail": det}))
             for w in G.vpr_buckets_sorted(d):
                 fails.append(("voting power bucket not ordered by account id", {"scenario": sc, "step": k - 1, "bucket": w}))
             op = sc["ops"][k - 1] if k > 0 else {"op": "init"}
